@@ -175,20 +175,34 @@ def r18_2(ctx):
         fi = p.func(key)
         g = ctx.cfg(fi)
         fw = [n.id for n in g.nodes if n.ast is not None and n.kind == "stmt" and fwd in norm(n.ast, 300)]
-        tn = [n.id for n in g.nodes if n.kind == "test" and norm(n.ast) == test]
+        # the gate test in either spelling (`== 'transaction'` taken on the true arm, `!= 'transaction'` on the false arm):
+        # every path to a forwarding statement carries the fact "gate expression is true"
+        gate_l, gate_r = test.split(" == ")
+
+        def classify(e):
+            if isinstance(e, ast.Compare) and len(e.ops) == 1 and isinstance(e.ops[0], ast.Eq) and norm(e.left) == gate_l and norm(e.comparators[0]) == gate_r:
+                return "gate"
+            return None
+
+        def kills(nid):
+            a = g.nodes[nid].ast
+            if g.nodes[nid].kind == "stmt" and isinstance(a, (ast.Assign, ast.AugAssign)):
+                ts = a.targets if isinstance(a, ast.Assign) else [a.target]
+                if any(norm(t) == gate_l for t in ts):
+                    return {"gate"}
+            return set()
+
+        tn = [n.id for n in g.nodes if n.kind == "test" and n.ast is not None and gate_l in norm(n.ast, 300) and gate_r in norm(n.ast, 300)]
         if not fw or not tn:
             ctx.bad("R18.2", fi.module, fi.qual, test, "forwarder no longer tests the gate state before writing to the user process", fi.node.lineno)
             continue
-        true_succ = [e.dst for e in g.out[tn[0]] if e.label == "true"]
-        seen_true = flow.reach(g, true_succ, flow.NORMAL)
-        false_succ = [e.dst for e in g.out[tn[0]] if e.label == "false"]
-        seen_false = flow.reach(g, false_succ, flow.NORMAL)
-        dom = flow.dominated_by(g, fw[0], lambda n: n in tn)
-        ctx.paths_explored += 3
-        if dom is None and all(f in seen_true for f in fw) and not any(f in seen_false for f in fw):
-            ctx.ok("R18.2", where(fi), f"bytes go to the user process only on the arm `{test}`")
+        hit = flow.feasible_paths_exist(g, g.entry, set(fw), classify, labels=flow.NORMAL, kills=kills, accept=lambda n_, facts: facts.get("gate") is not True)
+        ctx.paths_explored += 1
+        if hit is None:
+            ctx.ok("R18.2", where(fi), f"bytes go to the user process only where `{test}` is known to hold")
         else:
-            ctx.bad("R18.2", fi.module, fi.qual, fwd + "...)", "client bytes can be forwarded to a user process without the gate state test being true", g.nodes[fw[0]].line)
+            path, _ = hit
+            ctx.bad("R18.2", fi.module, fi.qual, fwd + "...)", "client bytes can be forwarded to a user process without the gate state test being true", g.nodes[path[-1]].line, flow.fmt_path(g, path))
 
 
 def r18_3(ctx):
